@@ -199,8 +199,13 @@ def rule_no_truthiness_default_on_actual(model: Model, rule_id: str = 'C08-R7') 
 
 
 def _tables(model: Model) -> t.Set[str]:
-    return {anchors.scalar_table(model), anchors.args_table(model), anchors.abstract_table(model), anchors.hash_table(model),
-            anchors.joiner_table(model), 'pane.convert._ScalarType', 'pane.convert._DataType'}
+    out = {anchors.scalar_table(model), anchors.args_table(model), anchors.abstract_table(model), 'pane.convert._ScalarType', 'pane.convert._DataType'}
+    for optional in (anchors.hash_table, anchors.joiner_table):
+        try:
+            out.add(optional(model))          # (a table that a refactoring turned into a function is no table to protect)
+        except AnalysisError:
+            pass
+    return out
 MUT = {'append', 'extend', 'insert', 'remove', 'clear', 'pop', 'sort', 'reverse', 'update', 'setdefault', 'popitem', 'add', 'discard', '__setitem__', '__delitem__'}
 
 
